@@ -646,3 +646,53 @@ func TestC12LibNames(t *testing.T) {
 }
 
 func init() { reg("C12.libname", checkC12LibName) }
+
+// ---- parameters named like a macro that is visible where the call is made ---------------------------------
+
+type C12ShadowMacroCase struct {
+	Which int `json:"which"`
+}
+
+var c12ShadowMacroSets = []struct {
+	main, want string
+}{
+	{"{% from 'lib' import box as b %}{{ b(1, 2) }}", "[12]"},
+	{"{% from 'lib' import box as a %}{{ a(1, 2) }}", "[12]"},
+	{"{% from 'lib' import box, other as b %}{{ box(1, 2) }}", "[12]"},
+	{"{% macro a(a) %}({{ a }}){% endmacro %}{{ a(1) }}", "(1)"},
+	{"{% macro m(m0) %}({{ m0 }}){% endmacro %}{% macro m0() %}Z{% endmacro %}{{ m(5) }}", "(5)"},
+	{"{% from 'lib' import other as x %}{{ x(7) }}", "<7>"},
+	{"{% macro m(m1 = 'd') %}({{ m1 }}){% endmacro %}{% macro m1() %}Z{% endmacro %}{{ m() }}{{ m('e') }}", "(d)(e)"},
+	{"{% from 'lib' import box as b %}{{ b(1, null) }}", "[1]"},
+	{"{% from 'lib' import box as b %}{% for i in [1, 2] %}{{ b(i, i * 2) }}{% endfor %}", "[12][24]"},
+	{"{% import 'lib' as a %}{{ a.box(1, 2) }}{{ a.other(3) }}", "[12]<3>"},
+	{"{% from 'lib' import other %}{% set other = 'v' %}{{ other }}", "v"},
+	{"{% macro wrap(x) %}{% from 'lib' import other as x2 %}{{ x2(x) }}{% endmacro %}{% from 'lib' import box as x %}{{ wrap(9) }}", "<9>"},
+}
+
+// checkC12ShadowMacro: a parameter is bound to its argument also when a macro of that name (an
+// alias, a sibling, the macro itself) is visible where the call is made.
+func checkC12ShadowMacro(c C12ShadowMacroCase) error {
+	s := c12ShadowMacroSets[c.Which%len(c12ShadowMacroSets)]
+	tm := map[string]string{"main": s.main, "lib": "{% macro box(a, b = 'B') %}[{{ a }}{{ b }}]{% endmacro %}{% macro other(x) %}<{{ x }}>{% endmacro %}"}
+	r := render(newEngine(tm), "main", nil)
+	if r.Failed() || r.Out != s.want {
+		return fmt.Errorf("a parameter (or variable) named like a visible macro: %s renders %v, want %s", q(s.main), r, q(s.want))
+	}
+	return nil
+}
+
+func TestC12ShadowMacro(t *testing.T) {
+	r := NewRec(t, "C12", "exhaustive: 12 templates in which a macro parameter (with an argument, with a default, with null) or a set variable has the name of a macro visible at the call (from-import alias, sibling macro, the macro itself, import module); expected text written out; all cases non-trivial")
+	defer r.Flush()
+	r.SetExhaustive()
+	for i := range c12ShadowMacroSets {
+		c := C12ShadowMacroCase{Which: i}
+		r.Case(fmt.Sprint(i), true, c12ShadowMacroSets[i].main)
+		if err := checkC12ShadowMacro(c); err != nil {
+			r.FailEnum(t, "C12.shadowmacro", c, err)
+		}
+	}
+}
+
+func init() { reg("C12.shadowmacro", checkC12ShadowMacro) }
